@@ -24,10 +24,15 @@ class C09(Prop):
                 "NV.C09.connect_order_as_modelled", "NV.C09.hb_remove_as_modelled", "NV.C09.hb_round_as_modelled",
                 "NV.C09.sweep_tests_as_modelled", "NV.C09.cursor_as_modelled", "NV.C09.backend_loop_as_modelled",
                 "NV.C09.slot_search_as_modelled", "NV.C09.process_io_as_modelled", "NV.C09.remove_tests_as_modelled",
-                "NV.C09.apply_sites_as_modelled", "NV.C09.guards_present",
+                "NV.C09.apply_sites_as_modelled", "NV.C09.guards_present", "NV.C09.apply_touch_as_modelled",
+                "NV.C09.input_to_call_as_modelled", "NV.C09.set_call_as_modelled", "NV.C09.prompt_as_modelled",
+                "NV.C09.command_branches_as_modelled",
                 "NV.C09.batch_any_order_good", "NV.C09.stale_event_skipped", "NV.C09.freed_record_events_are_stale",
                 "NV.C09.accept_serial_fresh", "NV.C09.applyAction_resolved", "NV.C09.pending_entry_older_than_any_accept",
                 "NV.C09.abandoned_suffix", "NV.C09.abandoned_nil_of_ok", "NV.C09.findConn_id",
+                "NV.C09.input_to_cleared_before_callback", "NV.C09.input_to_first_wins", "NV.C09.input_to_takes_the_line",
+                "NV.C09.no_prompt_while_input_to_pending", "NV.C09.sweep_keeps_invariant",
+                "NV.C09.failing_cleanup_loses_reset_state", "NV.C09.cleanup_restores_reset_state",
                 "NV.C09.judge_crash_clause", "NV.C09.judge_report_clause", "NV.C09.judge_exit_present", "NV.C09.judge_cycles_clause", "NV.C09.runFull_block",
                 "NV.C09.backend_total", "NV.C09.backend_total_prefix", "NV.C09.freed_conn_never_used_run",
                 "NV.C09.hooks_keep_invariant", "NV.C09.runHook_ok", "NV.C09.errorHandler_same", "NV.C09.cmh_flags",
@@ -198,13 +203,20 @@ class C09(Prop):
                 text = re.sub(r"\s+", " ", body[m.start():j + 1]).strip()
                 if any(re.search(r"\b%s\b" % re.escape(i), text) for i in idents):
                     hits.append((m.start(), text))
-            upd = r"(?:(?:\+\+|--)\s*(?:%(i)s)\b|\b(?:%(i)s)\s*(?:\+\+|--)|\b(?:%(i)s)\s*(?:[-+|&]?=(?!=))[^;]*)\s*;" % {"i": "|".join(re.escape(i) for i in idents)}
+            ids = "|".join(re.escape(i) for i in idents)
+            upd = (r"(?<=[;{})])\s*((?:(?:\+\+|--)\s*(?:%(i)s)\b|[^;{}()]*\b(?:%(i)s)\b[^;{}()]*(?:\+\+|--)|"
+                   r"[^;{}()]*\b(?:%(i)s)\b[^;{}()=]*(?:[-+|&]?=(?!=))[^;{}]*|[^;{}()=]*(?:[-+|&]?=(?!=))[^;{}]*\b(?:%(i)s)\b[^;{}]*))\s*;") % {"i": ids}
             for m in re.finditer(upd, body):
                 # not the ones inside an if/for header (already listed)
-                pre = body[:m.start()]
+                pre = body[:m.start(1)]
                 if pre.count("(") - pre.count(")") > 0:
                     continue
-                hits.append((m.start(), re.sub(r"\s+", " ", m.group(0)).strip()))
+                text = re.sub(r"\s+", " ", m.group(1)).strip()
+                if re.match(r"(if|for|while|return|else)\b", text):
+                    text = re.sub(r"^else\s+", "", text)
+                    if re.match(r"(if|for|while|return)\b", text):
+                        continue
+                hits.append((m.start(1), text + ";"))
             return [t for _, t in sorted(hits)]
 
         cmp_sites = {}
@@ -217,7 +229,30 @@ class C09(Prop):
             raise X.TieBroken("call_heart_beat()", "cannot locate call_heart_beat()")
         cmp_sites["hbRoundStmts"] = conds_and_updates(b, ["heart_beat_index", "num_hb_to_do", "current_heart_beat"])
         b = body_of(back, r"\nstatic void look_for_objects_to_swap \(\)\s*\{")
-        cmp_sites["sweepStmts"] = conds_and_updates(b, ["next_time", "next_reset", "O_RESET_STATE"])
+        cmp_sites["sweepStmts"] = conds_and_updates(b, ["next_time", "next_reset", "O_RESET_STATE", "ref_time", "__TIME_TO_CLEAN_UP__",
+                                                        "O_WILL_CLEAN_UP", "save_reset_state", "O_DESTRUCTED"])
+        app = open(os.path.join(E.REPO, "src/apply.c")).read()
+        b = body_of(app, r"\nint apply_low \(const char \*fun, object_t \* ob, int num_arg\)\s*\{")
+        if b is None:
+            raise X.TieBroken("apply_low()", "cannot locate apply_low()")
+        cmp_sites["applyTouchStmts"] = conds_and_updates(b, ["time_of_ref", "O_RESET_STATE"])
+        b = body_of(comm, r"\nint call_function_interactive \(interactive_t \* i, char \*str\)\s*\{")
+        if b is None:
+            raise X.TieBroken("call_function_interactive()", "cannot locate call_function_interactive()")
+        cmp_sites["inputToCallStmts"] = conds_and_updates(b, ["input_to", "sent", "NOESC"]) + order(b, [
+            ("free_sentence", r"free_sentence \(sent\)"), ("clear_input_to", r"i->input_to = 0;"),
+            ("callback", r"call_function_pointer \(funp")])
+        b = body_of(comm, r"\nint set_call \(object_t \* ob, sentence_t \* sent, int flags\)\s*\{")
+        if b is None:
+            raise X.TieBroken("set_call()", "cannot locate set_call()")
+        cmp_sites["setCallStmts"] = conds_and_updates(b, ["input_to"])
+        b = body_of(comm, r"\nstatic void print_prompt \(interactive_t \* ip\)\s*\{")
+        if b is None:
+            raise X.TieBroken("print_prompt()", "cannot locate print_prompt()")
+        cmp_sites["promptStmts"] = conds_and_updates(b, ["input_to", "IP_VALID", "HAS_WRITE_PROMPT"])
+        b = body_of(comm, r"\nint process_user_command \(\)\s*\{")
+        cmp_sites["commandBranchStmts"] = conds_and_updates(b, ["input_to", "call_function_interactive", "HAS_PROCESS_INPUT",
+                                                                "O_DESTRUCTED", "ed_buffer"])
         b = body_of(comm, r"\nstatic char\* get_user_command \(\)\s*\{")
         if b is None:
             raise X.TieBroken("get_user_command()", "cannot locate get_user_command()")
